@@ -241,15 +241,14 @@ func (m *moduleEngine) ResolveImportedFunction(index, descFunc, indexInImportedM
 	executableOffset, moduleCtxOffset, typeIDOffset := m.parent.offsets.ImportedFunctionOffset(index)
 	importedME := importedModuleEngine.(*moduleEngine)
 
-	if int(indexInImportedModule) >= len(importedME.importedFunctions) {
-		indexInImportedModule -= wasm.Index(len(importedME.importedFunctions))
-	} else {
+	importedFnCount := wasm.Index(len(importedME.importedFunctions))
+	if indexInImportedModule < importedFnCount {
 		imported := &importedME.importedFunctions[indexInImportedModule]
 		m.ResolveImportedFunction(index, descFunc, imported.indexInModule, imported.me)
 		return // Recursively resolve the imported function.
 	}
 
-	offset := importedME.parent.functionOffsets[indexInImportedModule]
+	offset := importedME.parent.functionOffsets[indexInImportedModule-importedFnCount]
 	typeID := m.module.TypeIDs[descFunc]
 	executable := &importedME.parent.executable[offset]
 	// Write functionInstance.
@@ -257,7 +256,8 @@ func (m *moduleEngine) ResolveImportedFunction(index, descFunc, indexInImportedM
 	binary.LittleEndian.PutUint64(m.opaque[moduleCtxOffset:], uint64(uintptr(unsafe.Pointer(importedME.opaquePtr))))
 	binary.LittleEndian.PutUint64(m.opaque[typeIDOffset:], uint64(typeID))
 
-	// Write importedFunction so that it can be used by NewFunction.
+	// Write importedFunction so that it can be used by NewFunction. Note: indexInModule is the index in
+	// the function index space of the defining module, i.e. including its imported functions.
 	m.importedFunctions[index] = importedFunction{me: importedME, indexInModule: indexInImportedModule}
 }
 
@@ -295,7 +295,7 @@ func (m *moduleEngine) FunctionInstanceReference(funcIndex wasm.Index) wasm.Refe
 		// notably with the correct indexInModule which LookupFunction relies on. The slot in the opaque
 		// area of this module only has the executable, module context and type ID.
 		imported := &m.importedFunctions[funcIndex]
-		return imported.me.FunctionInstanceReference(imported.indexInModule + imported.me.module.Source.ImportFunctionCount)
+		return imported.me.FunctionInstanceReference(imported.indexInModule)
 	}
 	localIndex := funcIndex - m.module.Source.ImportFunctionCount
 	p := m.parent
